@@ -9,7 +9,7 @@ open Fox Fox.Model.MW Fox.Model.Opt Fox.Spec.Opt Fox.Lemmas.Opt Fox.Lemmas.MW
 
 /-- the option constructors of options.go assign exactly the fields the model updates (regenerated on every run):
     per constructor the router / route fields written, the guard and value of every assignment of the two
-    trailing-slash options and of WithClientIPResolver, the annotation key check, and what NewRoute copies from the router -/
+    trailing-slash options, the effect of WithClientIPResolver by cases on its argument (symbolic evaluation of its body), the annotation key check, and what NewRoute copies from the router -/
 theorem options_tie :
     Generated.optionWrites = [
       ("DefaultOptions", ["handleOptions", "mws"], []),
@@ -31,8 +31,8 @@ theorem options_tie :
       ("router", "ignoreTrailingSlash", "enable", "false"), ("router", "redirectTrailingSlash", "", "enable")] ∧
     Generated.assigns_WithIgnoreTrailingSlash = [("route", "ignoreTrailingSlash", "", "enable"), ("route", "redirectTrailingSlash", "enable", "false"),
       ("router", "ignoreTrailingSlash", "", "enable"), ("router", "redirectTrailingSlash", "enable", "false")] ∧
-    Generated.assigns_WithClientIPResolver = [("route", "clientip", "s.route != nil", "cmp.Or(resolver, ClientIPResolver(noClientIPResolver{}))"),
-      ("router", "clientip", "s.router != nil && resolver != nil", "resolver")] ∧
+    Generated.effect_WithClientIPResolver = [("route", "nil", "none"), ("route", "non-nil", "resolver"),
+      ("router", "nil", "unchanged"), ("router", "non-nil", "resolver")] ∧
     Generated.annotationKeyCheck = "key == nil || !reflect.ValueOf(key).Comparable()" ∧
     Generated.newRouteInit = [("clientip", "fox.clientip"), ("hbase", "handler"), ("hostSplit", "endHost"),
       ("ignoreTrailingSlash", "fox.ignoreTrailingSlash"), ("mws", "slices.Clone(fox.mws)"), ("pattern", "pattern"), ("psLen", "n"),
